@@ -493,7 +493,37 @@ func genSeqPlan(prop string, seed uint64, tier string) *Plan {
 		for j := r.Range(0, 3); j > 0; j-- {
 			filler()
 		}
-		if r.Bool(1, 3) {
+		if r.Bool(1, 4) && len(others) >= 2 {
+			// T4: the colliding key is set *after* the pass has begun, live traffic then rotates the
+			// head file and the hint dumper ticks - the pass must still find the newer key's hash in
+			// a memory buffer (it forbids dumping the chunks above its range) and keep the older key
+			A, B := grp[0], grp[1]
+			c.BodyMax = 512
+			c.DataFileMax = r.Pick64(1024, 2048)
+			c.SecsBeforeDump = 0
+			// (no hint split may fill up during the template: a full split is rotated and dumped at
+			// once, whatever the pass forbids - with the default capacity of 1M items that takes a
+			// chunk of a million keys; part of the recorded finding KF-C13-collide-gc)
+			c.SplitCap = 1024
+			c.normalize()
+			perFile := int(c.DataFileMax / 256)
+			add(small(A))
+			filler()
+			add(Op{Kind: "restart", DelSeed: uint32(r.U64())})
+			var tr []Op
+			tid := 700000
+			addT := func(op Op) { tid++; op.ID = tid; tr = append(tr, op) }
+			addT(small(B))
+			for j := 0; j < perFile+1; j++ {
+				addT(small(others[j%len(others)]))
+			}
+			addT(Op{Kind: "tick"})
+			addT(Op{Kind: "dump"})
+			add(Op{Kind: "gc", GCBucket: b, GCStart: 0, GCEnd: 0, GCDays: 0, Merge: false, Traffic: tr})
+			add(Op{Kind: "get", K: A})
+			add(Op{Kind: "get", K: B})
+			p.Extra["gcTemplate"] = 4
+		} else if r.Bool(1, 3) {
 			// T3: the key that owns the shared tree slot (the one written last) is deleted - a delete
 			// of the slot owner is handled like any delete - and the chunk of the other key is
 			// collected, with or without merging: the other key must survive
